@@ -516,7 +516,10 @@ def c10(tier, seed):
         out.append(spec("verif_c10", "c10.rs", "c10_conv", "c10_conv_%s" % fam, [fam], max(8 * T(n), 128) + 3,
                         tier=tr, n=n, fam=fam, mem=mem_for(n), timeout=900 if q else 3000,
                         what="Lut%d: Lut::from(a) has %d variables and the same blocks; Lut%d::try_from is its inverse; try_from(Lut of any other size 0..13) is Err without panicking" % (n, n, n)))
-        for (lo, hi, label) in ((0, 12, "logic"), (30, 43, "forms"), (20, 22, "flipswap"), (22, 27, "cofactors")):
+        # the differential operator harnesses carry two copies of every table and a symbolic selector: measured out of
+        # memory (30 GB, 25 min each) at n >= 10, so they stop at n = 9 (optional there); the kernels shared by both
+        # types are decided up to n = 12 by C01 / C03 / C06
+        for (lo, hi, label) in (((0, 12, "logic"), (30, 43, "forms"), (20, 22, "flipswap"), (22, 27, "cofactors")) if n <= 9 else ()):
             out.append(spec("verif_c10", "c10.rs", "c10_ops", "c10_ops_%s_%s" % (label, fam), [fam, lo, hi], 8 * T(n) + 2,
                             tier=tr, n=n, fam=fam, mem=mem_for(n, 2.5), timeout=1200 if q else 3600, optional=(n >= 9),
                             mem_limit_gb=14 if n <= 8 else 30,
